@@ -125,4 +125,8 @@ handler under that upstream's route — nothing is shared between upstreams. -/
 theorem C13_skeleton_New : Sso.Generated.skel_proxy_New =
     ["if{", "call:NewRequestSigner", "if{", "return", "}", "call:SetRequestSigner", "call:append", "}", "call:NewRouter", "range{", "if{", "store:upstreamConfigs.DefaultConfig.ProviderSlug", "}", "call:newProvider", "if{", "return", "}", "call:NewUpstreamReverseProxy", "if{", "return", "}", "call:len", "if{", "call:NewEmailAddressValidator", "call:append", "}", "call:len", "if{", "call:NewEmailDomainValidator", "call:append", "}", "call:len", "if{", "call:NewEmailGroupValidator", "call:append", "}", "call:SetProvider", "call:SetCookieStore", "call:SetUpstreamConfig", "call:SetProxyHandler", "call:SetStatsdClient", "call:SetValidators", "call:append", "call:NewOAuthProxy", "if{", "return", "}", "typeswitch{", "case{", "call:Handler", "call:HandleStatic", "}", "case{", "call:Handler", "call:HandleRegexp", "}", "case{", "call:Errorf", "return", "}", "}", "}", "call:setHealthCheck", "return"] := by decide
 
+/-- Tie (T1): `SetValidators` *replaces* the proxy's validator list. -/
+theorem C13_skeleton_SetValidators : Sso.Generated.skel_proxy_SetValidators =
+    ["func{", "store:op.Validators", "return", "}", "return"] := by decide
+
 end Sso.Proxy
